@@ -116,6 +116,11 @@ def is_blank(ch):
     return ch in " \t\r\n"
 
 
+def norm(name):
+    """a macro name may be spelled as an escaped identifier (\\NAME followed by white space): same macro"""
+    return name[1:] if name.startswith("\\") else name
+
+
 class RefError(Exception):
     def __init__(self, kind, payload=None):
         self.kind, self.payload = kind, payload
@@ -132,6 +137,7 @@ class Ref:
         self.ignore = ignore_include
         self.out = []       # (char, prov) non-blank only
         self.limit = limit
+        self.cov_gone = False   # `undefineall was executed: whether SV_COV_* are defined is left aside (C11)
 
     def emit_copy(self, text, file, off):
         b = text.encode("utf-8")
@@ -145,6 +151,10 @@ class Ref:
                 self.out.append((ch, prov))
 
     def defined(self, n):
+        if self.cov_gone and n.startswith("SV_COV_"):
+            # the implementation re-installs the coverage constants whenever it starts on an included file or a
+            # macro body; the properties leave them aside
+            raise RefError("Unspecified", n)
         return n in self.defs or n in ("__LINE__", "__FILE__")
 
     def eval_file(self, path, depth=0):
@@ -169,24 +179,25 @@ class Ref:
                 if not self.strip:
                     self.emit_copy(it.text, path, it.off)
             elif k == "define":
-                if it.name not in ("__LINE__", "__FILE__"):
-                    self.defs[it.name] = dict(formals=it.formals, body=it.body, file=path, body_off=it.body_off)
+                if norm(it.name) not in ("__LINE__", "__FILE__"):
+                    self.defs[norm(it.name)] = dict(formals=it.formals, body=it.body, file=path, body_off=it.body_off)
                 # kept in the output
                 self.emit_copy(self.def_text(it), path, it.off)
             elif k == "undef":
-                self.defs.pop(it.name, None)
+                self.defs.pop(norm(it.name), None)
                 self.emit_copy("`undef " + it.name, path, it.off)
             elif k == "undefall":
                 self.defs.clear()
+                self.cov_gone = True
                 self.emit_copy("`undefineall", path, it.off)
             elif k == "cond":
-                hit = self.defined(it.name) != it.neg
+                hit = self.defined(norm(it.name)) != it.neg
                 if hit:
                     self.eval_items(it.body, path, depth)
                 else:
                     done = False
                     for (n, b, w) in it.elsifs:
-                        if self.defined(n):
+                        if self.defined(norm(n)):
                             self.eval_items(b, path, depth)
                             done = True
                             break
@@ -200,6 +211,8 @@ class Ref:
                 try:
                     self.eval_file(it.path, depth + 1)
                 except RefError as e:
+                    if e.kind == "Unspecified":
+                        raise
                     raise RefError("Include", e)
             elif k == "pos":
                 if it.which == "FILE":
@@ -273,8 +286,8 @@ class Ref:
         return s
 
     def expand(self, it, path):
-        d = self.defs.get(it.name)
-        txt = self.expand_text(it.name, it.args, 1)
+        d = self.defs.get(norm(it.name))
+        txt = self.expand_text(norm(it.name), it.args, 1)
         if d is None or d.get("file") is None:
             prov = ("macro", None, None)
         else:
@@ -285,10 +298,10 @@ class Ref:
 # ------------------------------------------------------------------------------ generation
 class Gen:
     def __init__(self, rng, macros=True, includes=True, conds=True, kept=True, pos=True,
-                 strings=True, comments=True, max_depth=3, nonascii=True):
+                 strings=True, comments=True, max_depth=3, nonascii=True, scenarios=False):
         self.r = rng
         self.o = dict(macros=macros, includes=includes, conds=conds, kept=kept, pos=pos,
-                      strings=strings, comments=comments, nonascii=nonascii)
+                      strings=strings, comments=comments, nonascii=nonascii, scenarios=scenarios)
         self.max_depth = max_depth
         self.files = []
         self.nfile = 0
@@ -434,9 +447,83 @@ class Gen:
         self.files.append(File(path, items + [Ws("\n")]))
         return [Ws("\n"), Include(path, r.random() < 0.3), Ws(r.choice(["\n", " \n", "\n\n"]))]
 
+    def newfile(self, items, sub=None):
+        self.nfile += 1
+        path = (self.r.choice(["inc%d.svh", "sub/inc%d.svh"]) if sub is None else sub) % self.nfile
+        self.files.append(File(path, items + [Ws("\n")]))
+        return [Ws("\n"), Include(path, self.r.random() < 0.2), Ws(self.r.choice(["\n", " \n", "\n\n"]))]
+
+    def scenario(self):
+        """define / change / observe one macro across files and macro bodies: the multi-step histories
+        (undef inside an include or a macro body, identical redefinition elsewhere, escaped spellings)"""
+        r = self.r
+        X = r.choice(MACROS)
+        nl = lambda: self.blank(True)
+        sp = lambda n: ("\\" + n) if r.random() < 0.25 else n
+        b1 = r.choice(IDS)
+        out = []
+        how = r.choice(["top", "top", "inc", "none", "nested"])
+        if how == "top":
+            out += [Define(sp(X), None, b1), nl()]
+        elif how == "inc":
+            out += self.newfile([Define(sp(X), None, b1), nl()])
+        elif how == "nested":
+            inner = self.newfile([Define(sp(X), None, b1), nl()])
+            out += self.newfile(inner)
+        M = r.choice([m for m in MACROS if m != X])
+        k = r.choice(["undef", "undef_inc", "undef_macro", "undefall_inc", "redef_same", "redef_same_inc", "redef_diff",
+                      "redef_diff_inc", "nothing", "undef_nested_inc", "undef_macro_nested", "undefall_macro_inc",
+                      "undef_esc", "redef_same_twice"])
+        if k == "undef":
+            out += [Undef(sp(X)), nl()]
+        elif k == "undef_esc":
+            out += [Undef("\\" + X), nl()]
+        elif k == "undef_inc":
+            out += self.newfile([Tok("in_inc"), nl(), Undef(sp(X)), nl()])
+        elif k == "undef_nested_inc":
+            out += self.newfile(self.newfile([Undef(sp(X)), nl()]) + [Tok("mid"), nl()])
+        elif k == "undef_macro":
+            out += [Define(M, None, "`undef " + X), nl(), Usage(M), nl()]
+        elif k == "undef_macro_nested":
+            M2 = r.choice([m for m in MACROS if m not in (X, M)])
+            out += [Define(M, None, "`undef " + X), nl(), Define(M2, None, "`" + M), nl(), Usage(M2), nl()]
+        elif k == "undefall_inc":
+            out += self.newfile([UndefAll(), nl()])
+        elif k == "undefall_macro_inc":
+            out += self.newfile([Define(M, None, "`undef " + X), nl()]) + [Usage(M), nl()]
+        elif k == "redef_same":
+            out += [Define(sp(X), None, b1), nl()]
+        elif k == "redef_same_twice":
+            out += [Tok("pad"), nl(), Define(X, None, b1), nl(), Tok("pad2"), nl(), Define(X, None, b1), nl()]
+        elif k == "redef_same_inc":
+            out += self.newfile([Tok("hdr"), nl(), Define(sp(X), None, b1), nl()])
+        elif k == "redef_diff":
+            out += [Define(sp(X), None, r.choice(IDS) + " + 1"), nl()]
+        elif k == "redef_diff_inc":
+            out += self.newfile([Define(sp(X), None, r.choice(IDS) + " + 2"), nl()])
+        # observe
+        for _ in range(r.randint(1, 2)):
+            c = Cond(r.random() < 0.4, sp(X), [Tok("on_" + X), nl()], [], [Tok("off_" + X), nl()])
+            c.ws0, c.els_ws = r.choice([" ", "\n", " \n"]), r.choice([" ", "\n"])
+            if r.random() < 0.3:
+                c.elsifs = [(sp(r.choice(MACROS)), [Tok("alt"), nl()], r.choice([" ", "\n"]))]
+            out += [c, nl()]
+            if r.random() < 0.5:
+                out += [Usage(X), Ws(" "), Tok(";"), nl()]
+            elif r.random() < 0.3:
+                out += [Usage("\\" + X), Ws(" "), Tok(";"), nl()]
+        self.defined, self.funs = [], {}
+        return out
+
     def program(self, n=None):
         r = self.r
         n = n if n is not None else r.randint(1, 8)
+        if self.o.get("scenarios"):
+            items = []
+            for _ in range(r.randint(1, 3)):
+                items += self.items(0, r.randint(0, 2), True) + self.scenario()
+            top = File("top.sv", items)
+            return [top] + self.files
         items = self.items(0, n, True)
         top = File("top.sv", items)
         return [top] + self.files
